@@ -151,26 +151,6 @@ def allRecommends (c : Cfg) : List Dep :=
   (sortedDedup ((c.files.map (·.user)).filter (· ≠ sRoot))).map depUser ++
   (sortedDedup ((c.files.map (·.group)).filter (· ≠ sRoot))).map depGroup
 
-def depTriple (nameTag versionTag flagsTag : Nat) (ds : List Dep) : List (Nat × IndexData) :=
-  [(nameTag, .strArray (ds.map (·.name))), (versionTag, .strArray (ds.map (·.version))), (flagsTag, .int32 (ds.map (·.flags)))]
-
-def depTripleIf (nameTag versionTag flagsTag : Nat) (ds : List Dep) : List (Nat × IndexData) :=
-  if ds.isEmpty then [] else depTriple nameTag versionTag flagsTag ds
-
-/-- `Scriptlet::apply` -/
-def scriptRecs (tags : Nat × Nat × Nat) : Option Scriptlet → List (Nat × IndexData)
-  | Option.none => []
-  | some s =>
-    [(tags.1, .str s.script)] ++
-    (match s.flags with | some f => [(tags.2.1, .int32 [f])] | Option.none => []) ++
-    (match s.prog with
-     | some p => if p.isEmpty then [] else [(tags.2.2, .strArray p)]
-     | Option.none => [])
-
-def optStr (tag : Nat) : Option Bytes → List (Nat × IndexData)
-  | some s => [(tag, .str s)]
-  | Option.none => []
-
 /-- `min(mtime, source_date)` when a source date is set -/
 def clampMtime (sd : Option Nat) (m : Nat) : Nat :=
   match sd with
@@ -180,82 +160,121 @@ def clampMtime (sd : Option Nat) (m : Nat) : Nat :=
 /-- position of a file's directory in the ordered directory set -/
 def dirIndex (dirs : List Bytes) (d : Bytes) : Nat := (dirs.findIdx? (· == d)).getD 0
 
-/-- the records `prepare_data` hands to `from_entries`, in source order -/
+/-- what `prepare_data` sees besides the builder state -/
+structure Ctx where
+  c : Cfg
+  now : Nat
+  payloadShaHex : Bytes
+  archiveShaHex : Bytes
+
+def Ctx.buildTime (x : Ctx) : Nat :=
+  match x.c.sourceDate with
+  | some t => if t < x.now then t else x.now
+  | Option.none => x.now
+
+/-- a slot of the header: its tag and the data `prepare_data` emits for it (or nothing) -/
+abbrev Slot := Nat × (Ctx → Option IndexData)
+
+def always (f : Ctx → IndexData) : Ctx → Option IndexData := fun x => some (f x)
+def whenFiles (f : Ctx → IndexData) : Ctx → Option IndexData := fun x => if x.c.files.isEmpty then none else some (f x)
+def optS (f : Cfg → Option Bytes) : Ctx → Option IndexData := fun x => (f x.c).map .str
+
+def depNames (f : Ctx → List Dep) (always' : Bool) : Ctx → Option IndexData :=
+  fun x => if !always' && (f x).isEmpty then none else some (.strArray ((f x).map (·.name)))
+def depVersions (f : Ctx → List Dep) (always' : Bool) : Ctx → Option IndexData :=
+  fun x => if !always' && (f x).isEmpty then none else some (.strArray ((f x).map (·.version)))
+def depFlags (f : Ctx → List Dep) (always' : Bool) : Ctx → Option IndexData :=
+  fun x => if !always' && (f x).isEmpty then none else some (.int32 ((f x).map (·.flags)))
+
+/-- `Scriptlet::apply`: script always, flags when set, interpreter when set and non-empty -/
+def scrScript (f : Cfg → Option Scriptlet) : Ctx → Option IndexData := fun x => (f x.c).map fun s => .str s.script
+def scrFlags (f : Cfg → Option Scriptlet) : Ctx → Option IndexData :=
+  fun x => (f x.c).bind fun s => s.flags.map fun fl => .int32 [fl]
+def scrProg (f : Cfg → Option Scriptlet) : Ctx → Option IndexData :=
+  fun x => (f x.c).bind fun s => s.prog.bind fun p => if p.isEmpty then none else some (.strArray p)
+
+def depSlots (n v f : Nat) (g : Ctx → List Dep) (always' : Bool) : List Slot :=
+  [(n, depNames g always'), (v, depVersions g always'), (f, depFlags g always')]
+def scriptSlots (a b c : Nat) (g : Cfg → Option Scriptlet) : List Slot :=
+  [(a, scrScript g), (b, scrFlags g), (c, scrProg g)]
+
+/-- every record `prepare_data` can emit, in source order -/
+def slots : List Slot :=
+  [ (IndexTag.RPMTAG_SOURCERPM, always fun _ => .str sNone),
+    (IndexTag.RPMTAG_HEADERI18NTABLE, always fun _ => .strArray [sC]),
+    (IndexTag.RPMTAG_NAME, always fun x => .str x.c.name),
+    (IndexTag.RPMTAG_EPOCH, always fun x => .int32 [x.c.epoch]),
+    (IndexTag.RPMTAG_RPMVERSION, always fun _ => .str (sRpmRs ++ CARGO_PKG_VERSION)),
+    (IndexTag.RPMTAG_VERSION, always fun x => .str x.c.version),
+    (IndexTag.RPMTAG_RELEASE, always fun x => .str x.c.release),
+    (IndexTag.RPMTAG_DESCRIPTION, always fun x => .i18n [x.c.desc.getD x.c.summary]),
+    (IndexTag.RPMTAG_SUMMARY, always fun x => .i18n [x.c.summary]),
+    (IndexTag.RPMTAG_LONGSIZE, fun x => if usesLargeFiles x.c then some (.int64 [combinedSize x.c]) else none),
+    (IndexTag.RPMTAG_SIZE, fun x => if usesLargeFiles x.c then none else some (.int32 [combinedSize x.c])),
+    (IndexTag.RPMTAG_LICENSE, always fun x => .str x.c.license),
+    (IndexTag.RPMTAG_OS, always fun _ => .str sLinux),
+    (IndexTag.RPMTAG_GROUP, always fun x => .i18n [x.c.group.getD sUnspecified]),
+    (IndexTag.RPMTAG_ARCH, always fun x => .str x.c.arch),
+    (IndexTag.RPMTAG_ENCODING, always fun _ => .str sUtf8),
+    (IndexTag.RPMTAG_PAYLOADFORMAT, always fun _ => .str sCpio),
+    (IndexTag.RPMTAG_BUILDTIME, always fun x => .int32 [x.buildTime]),
+    (IndexTag.RPMTAG_BUILDHOST, optS (·.buildHost)),
+    (IndexTag.RPMTAG_LONGFILESIZES, fun x => if x.c.files.isEmpty || !usesLargeFiles x.c then none else some (.int64 (x.c.files.map (·.size)))),
+    (IndexTag.RPMTAG_FILESIZES, fun x => if x.c.files.isEmpty || usesLargeFiles x.c then none else some (.int32 (x.c.files.map (·.size)))),
+    (IndexTag.RPMTAG_FILEMODES, whenFiles fun x => .int16 (x.c.files.map (·.mode))),
+    (IndexTag.RPMTAG_FILERDEVS, whenFiles fun x => .int16 (x.c.files.map (fun _ => 0))),
+    (IndexTag.RPMTAG_FILEMTIMES, whenFiles fun x => .int32 (x.c.files.map (fun f => clampMtime x.c.sourceDate f.mtime))),
+    (IndexTag.RPMTAG_FILEDIGESTS, whenFiles fun x => .strArray (x.c.files.map (·.shaHex))),
+    (IndexTag.RPMTAG_FILELINKTOS, whenFiles fun x => .strArray (x.c.files.map (·.link))),
+    (IndexTag.RPMTAG_FILEFLAGS, whenFiles fun x => .int32 (x.c.files.map (·.flags))),
+    (IndexTag.RPMTAG_FILEUSERNAME, whenFiles fun x => .strArray (x.c.files.map (·.user))),
+    (IndexTag.RPMTAG_FILEGROUPNAME, whenFiles fun x => .strArray (x.c.files.map (·.group))),
+    (IndexTag.RPMTAG_FILEDEVICES, whenFiles fun x => .int32 (x.c.files.map (fun _ => 1))),
+    (IndexTag.RPMTAG_FILEINODES, whenFiles fun x => .int32 ((List.range x.c.files.length).map (· + 1))),
+    (IndexTag.RPMTAG_DIRINDEXES, whenFiles fun x => .int32 (x.c.files.map (fun f => dirIndex x.c.directories f.dir))),
+    (IndexTag.RPMTAG_FILELANGS, whenFiles fun x => .strArray (x.c.files.map (fun _ => []))),
+    (IndexTag.RPMTAG_FILEDIGESTALGO, whenFiles fun _ => .int32 [8]),
+    (IndexTag.RPMTAG_FILEVERIFYFLAGS, whenFiles fun x => .int32 (x.c.files.map (·.verifyFlags))),
+    (IndexTag.RPMTAG_BASENAMES, whenFiles fun x => .strArray (x.c.files.map (·.baseName))),
+    (IndexTag.RPMTAG_DIRNAMES, whenFiles fun x => .strArray x.c.directories),
+    (IndexTag.RPMTAG_FILECAPS, fun x => if x.c.files.isEmpty || !usesCaps x.c then none else some (.strArray (x.c.files.map (fun f => f.caps.getD [])))) ] ++
+  depSlots IndexTag.RPMTAG_PROVIDENAME IndexTag.RPMTAG_PROVIDEVERSION IndexTag.RPMTAG_PROVIDEFLAGS (fun x => allProvides x.c) true ++
+  [ (IndexTag.RPMTAG_PAYLOADDIGEST, always fun x => .strArray [x.payloadShaHex]),
+    (IndexTag.RPMTAG_PAYLOADDIGESTALGO, always fun _ => .int32 [8]),
+    (IndexTag.RPMTAG_PAYLOADDIGESTALT, always fun x => .strArray [x.archiveShaHex]),
+    (IndexTag.RPMTAG_PAYLOADCOMPRESSOR, fun x => x.c.compression.name.map fun p => .str p.1),
+    (IndexTag.RPMTAG_PAYLOADFLAGS, fun x => x.c.compression.name.map fun p => .str p.2),
+    (IndexTag.RPMTAG_CHANGELOGNAME, fun x => if x.c.changelog.isEmpty then none else some (.strArray (x.c.changelog.map (·.1)))),
+    (IndexTag.RPMTAG_CHANGELOGTEXT, fun x => if x.c.changelog.isEmpty then none else some (.strArray (x.c.changelog.map (·.2.1)))),
+    (IndexTag.RPMTAG_CHANGELOGTIME, fun x => if x.c.changelog.isEmpty then none else some (.int32 (x.c.changelog.map (·.2.2)))) ] ++
+  depSlots IndexTag.RPMTAG_OBSOLETENAME IndexTag.RPMTAG_OBSOLETEVERSION IndexTag.RPMTAG_OBSOLETEFLAGS (fun x => x.c.obsoletes) false ++
+  depSlots IndexTag.RPMTAG_REQUIRENAME IndexTag.RPMTAG_REQUIREVERSION IndexTag.RPMTAG_REQUIREFLAGS (fun x => allRequires x.c) false ++
+  depSlots IndexTag.RPMTAG_CONFLICTNAME IndexTag.RPMTAG_CONFLICTVERSION IndexTag.RPMTAG_CONFLICTFLAGS (fun x => x.c.conflicts) false ++
+  depSlots IndexTag.RPMTAG_RECOMMENDNAME IndexTag.RPMTAG_RECOMMENDVERSION IndexTag.RPMTAG_RECOMMENDFLAGS (fun x => allRecommends x.c) false ++
+  depSlots IndexTag.RPMTAG_SUGGESTNAME IndexTag.RPMTAG_SUGGESTVERSION IndexTag.RPMTAG_SUGGESTFLAGS (fun x => x.c.suggests) false ++
+  depSlots IndexTag.RPMTAG_ENHANCENAME IndexTag.RPMTAG_ENHANCEVERSION IndexTag.RPMTAG_ENHANCEFLAGS (fun x => x.c.enhances) false ++
+  depSlots IndexTag.RPMTAG_SUPPLEMENTNAME IndexTag.RPMTAG_SUPPLEMENTVERSION IndexTag.RPMTAG_SUPPLEMENTFLAGS (fun x => x.c.supplements) false ++
+  scriptSlots IndexTag.RPMTAG_PREIN IndexTag.RPMTAG_PREINFLAGS IndexTag.RPMTAG_PREINPROG (·.preIn) ++
+  scriptSlots IndexTag.RPMTAG_POSTIN IndexTag.RPMTAG_POSTINFLAGS IndexTag.RPMTAG_POSTINPROG (·.postIn) ++
+  scriptSlots IndexTag.RPMTAG_PREUN IndexTag.RPMTAG_PREUNFLAGS IndexTag.RPMTAG_PREUNPROG (·.preUn) ++
+  scriptSlots IndexTag.RPMTAG_POSTUN IndexTag.RPMTAG_POSTUNFLAGS IndexTag.RPMTAG_POSTUNPROG (·.postUn) ++
+  scriptSlots IndexTag.RPMTAG_PRETRANS IndexTag.RPMTAG_PRETRANSFLAGS IndexTag.RPMTAG_PRETRANSPROG (·.preTrans) ++
+  scriptSlots IndexTag.RPMTAG_POSTTRANS IndexTag.RPMTAG_POSTTRANSFLAGS IndexTag.RPMTAG_POSTTRANSPROG (·.postTrans) ++
+  scriptSlots IndexTag.RPMTAG_PREUNTRANS IndexTag.RPMTAG_PREUNTRANSFLAGS IndexTag.RPMTAG_PREUNTRANSPROG (·.preUntrans) ++
+  scriptSlots IndexTag.RPMTAG_POSTUNTRANS IndexTag.RPMTAG_POSTUNTRANSFLAGS IndexTag.RPMTAG_POSTUNTRANSPROG (·.postUntrans) ++
+  scriptSlots IndexTag.RPMTAG_VERIFYSCRIPT IndexTag.RPMTAG_VERIFYSCRIPTFLAGS IndexTag.RPMTAG_VERIFYSCRIPTPROG (·.verify) ++
+  [ (IndexTag.RPMTAG_VENDOR, optS (·.vendor)),
+    (IndexTag.RPMTAG_PACKAGER, optS (·.packager)),
+    (IndexTag.RPMTAG_URL, optS (·.url)),
+    (IndexTag.RPMTAG_VCS, optS (·.vcs)),
+    (IndexTag.RPMTAG_COOKIE, optS (·.cookie)) ]
+
+/-- the records `prepare_data` hands to `from_entries`, in source order: every slot that emits data -/
+def recordsOf (x : Ctx) : List (Nat × IndexData) :=
+  slots.filterMap fun s => (s.2 x).map fun d => (s.1, d)
+
 def records (c : Cfg) (now : Nat) (payloadShaHex archiveShaHex : Bytes) : List (Nat × IndexData) :=
-  let large := usesLargeFiles c
-  let buildTime := match c.sourceDate with
-    | some t => if t < now then t else now
-    | Option.none => now
-  [ (IndexTag.RPMTAG_SOURCERPM, .str sNone),
-    (IndexTag.RPMTAG_HEADERI18NTABLE, .strArray [sC]),
-    (IndexTag.RPMTAG_NAME, .str c.name),
-    (IndexTag.RPMTAG_EPOCH, .int32 [c.epoch]),
-    (IndexTag.RPMTAG_RPMVERSION, .str (sRpmRs ++ CARGO_PKG_VERSION)),
-    (IndexTag.RPMTAG_VERSION, .str c.version),
-    (IndexTag.RPMTAG_RELEASE, .str c.release),
-    (IndexTag.RPMTAG_DESCRIPTION, .i18n [c.desc.getD c.summary]),
-    (IndexTag.RPMTAG_SUMMARY, .i18n [c.summary]),
-    (if large then (IndexTag.RPMTAG_LONGSIZE, .int64 [combinedSize c]) else (IndexTag.RPMTAG_SIZE, .int32 [combinedSize c])),
-    (IndexTag.RPMTAG_LICENSE, .str c.license),
-    (IndexTag.RPMTAG_OS, .str sLinux),
-    (IndexTag.RPMTAG_GROUP, .i18n [c.group.getD sUnspecified]),
-    (IndexTag.RPMTAG_ARCH, .str c.arch),
-    (IndexTag.RPMTAG_ENCODING, .str sUtf8),
-    (IndexTag.RPMTAG_PAYLOADFORMAT, .str sCpio),
-    (IndexTag.RPMTAG_BUILDTIME, .int32 [buildTime]) ] ++
-  optStr IndexTag.RPMTAG_BUILDHOST c.buildHost ++
-  (if c.files.isEmpty then [] else
-    [ (if large then (IndexTag.RPMTAG_LONGFILESIZES, .int64 (c.files.map (·.size)))
-       else (IndexTag.RPMTAG_FILESIZES, .int32 (c.files.map (·.size)))),
-      (IndexTag.RPMTAG_FILEMODES, .int16 (c.files.map (·.mode))),
-      (IndexTag.RPMTAG_FILERDEVS, .int16 (c.files.map (fun _ => 0))),
-      (IndexTag.RPMTAG_FILEMTIMES, .int32 (c.files.map (fun f => clampMtime c.sourceDate f.mtime))),
-      (IndexTag.RPMTAG_FILEDIGESTS, .strArray (c.files.map (·.shaHex))),
-      (IndexTag.RPMTAG_FILELINKTOS, .strArray (c.files.map (·.link))),
-      (IndexTag.RPMTAG_FILEFLAGS, .int32 (c.files.map (·.flags))),
-      (IndexTag.RPMTAG_FILEUSERNAME, .strArray (c.files.map (·.user))),
-      (IndexTag.RPMTAG_FILEGROUPNAME, .strArray (c.files.map (·.group))),
-      (IndexTag.RPMTAG_FILEDEVICES, .int32 (c.files.map (fun _ => 1))),
-      (IndexTag.RPMTAG_FILEINODES, .int32 ((List.range c.files.length).map (· + 1))),
-      (IndexTag.RPMTAG_DIRINDEXES, .int32 (c.files.map (fun f => dirIndex c.directories f.dir))),
-      (IndexTag.RPMTAG_FILELANGS, .strArray (c.files.map (fun _ => []))),
-      (IndexTag.RPMTAG_FILEDIGESTALGO, .int32 [8]),
-      (IndexTag.RPMTAG_FILEVERIFYFLAGS, .int32 (c.files.map (·.verifyFlags))),
-      (IndexTag.RPMTAG_BASENAMES, .strArray (c.files.map (·.baseName))),
-      (IndexTag.RPMTAG_DIRNAMES, .strArray c.directories) ] ++
-    (if usesCaps c then [(IndexTag.RPMTAG_FILECAPS, .strArray (c.files.map (fun f => f.caps.getD [])))] else [])) ++
-  depTriple IndexTag.RPMTAG_PROVIDENAME IndexTag.RPMTAG_PROVIDEVERSION IndexTag.RPMTAG_PROVIDEFLAGS (allProvides c) ++
-  [ (IndexTag.RPMTAG_PAYLOADDIGEST, .strArray [payloadShaHex]),
-    (IndexTag.RPMTAG_PAYLOADDIGESTALGO, .int32 [8]),
-    (IndexTag.RPMTAG_PAYLOADDIGESTALT, .strArray [archiveShaHex]) ] ++
-  (match c.compression.name with
-   | some (n, l) => [(IndexTag.RPMTAG_PAYLOADCOMPRESSOR, .str n), (IndexTag.RPMTAG_PAYLOADFLAGS, .str l)]
-   | Option.none => []) ++
-  (if c.changelog.isEmpty then [] else
-    [ (IndexTag.RPMTAG_CHANGELOGNAME, .strArray (c.changelog.map (·.1))),
-      (IndexTag.RPMTAG_CHANGELOGTEXT, .strArray (c.changelog.map (·.2.1))),
-      (IndexTag.RPMTAG_CHANGELOGTIME, .int32 (c.changelog.map (·.2.2))) ]) ++
-  depTripleIf IndexTag.RPMTAG_OBSOLETENAME IndexTag.RPMTAG_OBSOLETEVERSION IndexTag.RPMTAG_OBSOLETEFLAGS c.obsoletes ++
-  depTripleIf IndexTag.RPMTAG_REQUIRENAME IndexTag.RPMTAG_REQUIREVERSION IndexTag.RPMTAG_REQUIREFLAGS (allRequires c) ++
-  depTripleIf IndexTag.RPMTAG_CONFLICTNAME IndexTag.RPMTAG_CONFLICTVERSION IndexTag.RPMTAG_CONFLICTFLAGS c.conflicts ++
-  depTripleIf IndexTag.RPMTAG_RECOMMENDNAME IndexTag.RPMTAG_RECOMMENDVERSION IndexTag.RPMTAG_RECOMMENDFLAGS (allRecommends c) ++
-  depTripleIf IndexTag.RPMTAG_SUGGESTNAME IndexTag.RPMTAG_SUGGESTVERSION IndexTag.RPMTAG_SUGGESTFLAGS c.suggests ++
-  depTripleIf IndexTag.RPMTAG_ENHANCENAME IndexTag.RPMTAG_ENHANCEVERSION IndexTag.RPMTAG_ENHANCEFLAGS c.enhances ++
-  depTripleIf IndexTag.RPMTAG_SUPPLEMENTNAME IndexTag.RPMTAG_SUPPLEMENTVERSION IndexTag.RPMTAG_SUPPLEMENTFLAGS c.supplements ++
-  scriptRecs (IndexTag.RPMTAG_PREIN, IndexTag.RPMTAG_PREINFLAGS, IndexTag.RPMTAG_PREINPROG) c.preIn ++
-  scriptRecs (IndexTag.RPMTAG_POSTIN, IndexTag.RPMTAG_POSTINFLAGS, IndexTag.RPMTAG_POSTINPROG) c.postIn ++
-  scriptRecs (IndexTag.RPMTAG_PREUN, IndexTag.RPMTAG_PREUNFLAGS, IndexTag.RPMTAG_PREUNPROG) c.preUn ++
-  scriptRecs (IndexTag.RPMTAG_POSTUN, IndexTag.RPMTAG_POSTUNFLAGS, IndexTag.RPMTAG_POSTUNPROG) c.postUn ++
-  scriptRecs (IndexTag.RPMTAG_PRETRANS, IndexTag.RPMTAG_PRETRANSFLAGS, IndexTag.RPMTAG_PRETRANSPROG) c.preTrans ++
-  scriptRecs (IndexTag.RPMTAG_POSTTRANS, IndexTag.RPMTAG_POSTTRANSFLAGS, IndexTag.RPMTAG_POSTTRANSPROG) c.postTrans ++
-  scriptRecs (IndexTag.RPMTAG_PREUNTRANS, IndexTag.RPMTAG_PREUNTRANSFLAGS, IndexTag.RPMTAG_PREUNTRANSPROG) c.preUntrans ++
-  scriptRecs (IndexTag.RPMTAG_POSTUNTRANS, IndexTag.RPMTAG_POSTUNTRANSFLAGS, IndexTag.RPMTAG_POSTUNTRANSPROG) c.postUntrans ++
-  scriptRecs (IndexTag.RPMTAG_VERIFYSCRIPT, IndexTag.RPMTAG_VERIFYSCRIPTFLAGS, IndexTag.RPMTAG_VERIFYSCRIPTPROG) c.verify ++
-  optStr IndexTag.RPMTAG_VENDOR c.vendor ++
-  optStr IndexTag.RPMTAG_PACKAGER c.packager ++
-  optStr IndexTag.RPMTAG_URL c.url ++
-  optStr IndexTag.RPMTAG_VCS c.vcs ++
-  optStr IndexTag.RPMTAG_COOKIE c.cookie
+  recordsOf ⟨c, now, payloadShaHex, archiveShaHex⟩
 
 /-- the main header `prepare_data` builds -/
 def mainHeader (c : Cfg) (now : Nat) (payloadShaHex archiveShaHex : Bytes) : Header :=
